@@ -26,4 +26,233 @@ structure Post (lim : Limits) (base : Nat) (depthTracked : Prop) (acc r : Acc) :
   writes : r.maxWrite ≤ Nat.max acc.maxWrite lim.maxFile
   countUp : acc.count ≤ r.count
 
+theorem post_of_count_bump (lim : Limits) (base : Nat) (P : Prop) (acc r : Acc) (k : Nat)
+    (h : Post lim base P { acc with count := acc.count + k } r) : Post lim base P acc r :=
+  ⟨h.inv, h.grows, h.checked, h.writes, by have := h.countUp; simp at this; omega⟩
+
+/-- one file iteration (accumulator `a` after the entry, both checks passed) followed by the rest -/
+theorem post_compose (lim : Limits) (base : Nat) (P : Prop) (acc a r : Acc)
+    (hInvA : Inv a)
+    (hgrow : ∃ new1, a.files = acc.files ++ new1 ∧ (∀ f ∈ new1, f.1 ≤ lim.maxFile) ∧
+      (P → ∀ f ∈ new1, (f.2 : Int) ≤ lim.maxDepth) ∧ (∀ f ∈ new1, base ≤ f.2))
+    (hchk : a.total ≤ lim.maxTotal ∧ a.count ≤ lim.maxCount)
+    (hw : a.maxWrite ≤ Nat.max acc.maxWrite lim.maxFile) (hc : acc.count ≤ a.count)
+    (hp : Post lim base P a r) : Post lim base P acc r := by
+  obtain ⟨new1, hf1, hb1, hd1, hbase1⟩ := hgrow
+  obtain ⟨new2, hf2, hb2, hd2, hbase2⟩ := hp.grows
+  refine ⟨hp.inv, ⟨new1 ++ new2, by rw [hf2, hf1, List.append_assoc], ?_, ?_, ?_⟩, ?_, ?_, Nat.le_trans hc hp.countUp⟩
+  · intro f hf; rcases List.mem_append.mp hf with h | h; exact hb1 f h; exact hb2 f h
+  · intro hP f hf; rcases List.mem_append.mp hf with h | h; exact hd1 hP f h; exact hd2 hP f h
+  · intro f hf; rcases List.mem_append.mp hf with h | h; exact hbase1 f h; exact hbase2 f h
+  · right
+    rcases hp.checked with ⟨e1, e2⟩ | h
+    · rw [e1, e2]; exact ⟨hchk.1, Nat.le_trans hInvA.1 hchk.2⟩
+    · exact h
+  · have := hp.writes
+    have h1 : Nat.max a.maxWrite lim.maxFile ≤ Nat.max acc.maxWrite lim.maxFile :=
+      Nat.max_le.mpr ⟨hw, Nat.le_max_right _ _⟩
+    exact Nat.le_trans this h1
+
+section
+variable (F : LimitFacts) (hF : F.canonical) (lim : Limits) (hap : lim.apply = true)
+include hF hap
+
+theorem depth_ok (x : Nat) (h : depthExceeded F lim x = false) (hm : lim.maxDepth ≥ 0) :
+    (x : Int) ≤ lim.maxDepth := by
+  simp [depthExceeded, depthOn, hap, hm, gt, hF.2.2.1] at h; exact h
+
+theorem size_ok (decl : Nat) (h : sizeExceeded F lim decl = false) : decl ≤ lim.maxFile := by
+  simp [sizeExceeded, hap, gt, hF.2.2.2.2.2.1] at h; omega
+
+theorem total_ok (t : Nat) (h : totalExceeded F lim t = false) : t ≤ lim.maxTotal := by
+  simp [totalExceeded, hap, gt, hF.2.2.2.1, hF.2.2.2.2.2.2.2.2.2.2] at h; omega
+
+theorem count_ok (c : Nat) (h : countExceeded F lim c = false) : c ≤ lim.maxCount := by
+  simp [countExceeded, hap, gt, hF.2.2.2.2.1, hF.2.2.2.2.2.2.2.2.2.2] at h; omega
+
+theorem fileDepth_on (d cur : Nat) (hm : lim.maxDepth ≥ 0) : fileDepthOf lim d cur = d + cur := by
+  simp [fileDepthOf, depthOn, hap, hm]
+end
+
+theorem run_post (F : LimitFacts) (hF : F.canonical) (lim : Limits) (hap : lim.apply = true) :
+    ∀ (a : Arch) (cur base : Nat) (acc r : Acc), (lim.maxDepth ≥ 0 → cur = base) → Inv acc →
+      run F lim cur base a acc = .ok r → Post lim base (lim.maxDepth ≥ 0) acc r := by
+  have f7 := hF.2.2.2.2.2.2.1
+  have f9 := hF.2.2.2.2.2.2.2.2.1
+  have f10 := hF.2.2.2.2.2.2.2.2.2.1
+  intro a
+  induction a with
+  | nil =>
+    intro cur base acc r _ hinv h
+    simp only [run, Except.ok.injEq] at h; subst h
+    exact ⟨hinv, ⟨[], by simp, by simp, by simp, by simp⟩, Or.inl ⟨rfl, rfl⟩, Nat.le_max_left _ _, Nat.le_refl _⟩
+  | dirE d rest ih =>
+    intro cur base acc r hcb hinv h
+    simp only [run] at h
+    by_cases hd : depthExceeded F lim (d + cur) = true
+    · simp [hd] at h
+    · simp only [hd, Bool.false_eq_true, if_false] at h
+      exact post_of_count_bump lim base _ acc r 1 (ih cur base _ r hcb ⟨by simp; exact Nat.le_succ_of_le hinv.1, hinv.2⟩ h)
+  | fileE d zn decl act isZip inner rest ihInner ihRest =>
+    intro cur base acc r hcb hinv h
+    simp only [run, f7, f9, if_true] at h
+    by_cases hd : depthExceeded F lim (fileDepthOf lim d cur) = true
+    · simp [hd] at h
+    have hd' : depthExceeded F lim (fileDepthOf lim d cur) = false := by simpa using hd
+    simp only [hd', Bool.false_eq_true, if_false] at h
+    by_cases hs : sizeExceeded F lim decl = true
+    · simp [hs] at h
+    have hs' : sizeExceeded F lim decl = false := by simpa using hs
+    simp only [hs', Bool.false_eq_true, if_false] at h
+    by_cases hshort : act < decl
+    · simp [hshort] at h
+    simp only [hshort, if_false] at h
+    have hdecl := size_ok F hF lim hap decl hs'
+    have hdep : lim.maxDepth ≥ 0 → ((base + d : Nat) : Int) ≤ lim.maxDepth := by
+      intro hm
+      have := depth_ok F hF lim hap _ hd' hm
+      rw [fileDepth_on F hF lim hap d cur hm, hcb hm] at this
+      push_cast at this ⊢; omega
+    have hcur' : lim.maxDepth ≥ 0 → fileDepthOf lim d cur + 1 = base + d + 1 := by
+      intro hm; rw [fileDepth_on F hF lim hap d cur hm, hcb hm]; omega
+    generalize hstep : fileStep F lim base d zn isZip decl (fileDepthOf lim d cur + 1)
+      (run F lim (fileDepthOf lim d cur + 1) (base + d + 1) inner (zeroAcc (Nat.max acc.maxWrite decl))) acc = step at h
+    cases step with
+    | error e => simp at h
+    | ok a =>
+    simp only [] at h
+    by_cases ht : totalExceeded F lim a.total = true
+    · simp [ht] at h
+    have ht' : totalExceeded F lim a.total = false := by simpa using ht
+    simp only [ht', Bool.false_eq_true, if_false] at h
+    by_cases hc : countExceeded F lim a.count = true
+    · simp [hc] at h
+    have hc' : countExceeded F lim a.count = false := by simpa using hc
+    simp only [hc', Bool.false_eq_true, if_false] at h
+    have htot' := total_ok F hF lim hap _ ht'
+    have hcnt' := count_ok F hF lim hap _ hc'
+    have hrest := fun hi => ihRest cur base a r hcb hi h
+    have hcb1 : acc.count ≤ countBefore lim zn acc.count := by unfold countBefore; split <;> omega
+    unfold fileStep at hstep
+    by_cases hnest : (lim.recursive && zn && isZip) = true
+    · -- nested archive
+      simp only [hnest, if_true] at hstep
+      split at hstep
+      · simp at hstep
+      split at hstep
+      · simp at hstep
+      split at hstep
+      · simp at hstep
+      rename_i r2 hinner
+      simp only [Except.ok.injEq] at hstep
+      have p2 := ihInner _ (base + d + 1) _ r2 hcur' ⟨by simp [zeroAcc], by simp [zeroAcc, sumSizes]⟩ hinner
+      obtain ⟨new2, hf2, hb2, hd2, hbase2⟩ := p2.grows
+      simp only [zeroAcc, List.nil_append] at hf2
+      have ea_c : a.count = countBefore lim zn acc.count + r2.count := by rw [← hstep]
+      have ea_t : a.total = acc.total + r2.total := by rw [← hstep]
+      have ea_f : a.files = acc.files ++ r2.files := by rw [← hstep]
+      have ea_w : a.maxWrite = r2.maxWrite := by rw [← hstep]
+      have hInvA : Inv a := by
+        refine ⟨?_, ?_⟩
+        · rw [ea_f, ea_c, List.length_append]; have := p2.inv.1; have := hinv.1; omega
+        · rw [ea_f, ea_t, sumSizes_append, hinv.2, p2.inv.2]
+      refine post_compose lim base _ acc a r hInvA ⟨r2.files, ea_f, ?_, ?_, ?_⟩ ⟨htot', hcnt'⟩ ?_ ?_ (hrest hInvA)
+      · rw [hf2]; exact hb2
+      · intro hm; rw [hf2]; exact hd2 hm
+      · intro f hf; rw [hf2] at hf; have := hbase2 f hf; omega
+      · have := p2.writes
+        simp only [zeroAcc] at this
+        have h1 : Nat.max (Nat.max acc.maxWrite decl) lim.maxFile ≤ Nat.max acc.maxWrite lim.maxFile := by
+          apply Nat.max_le.mpr
+          exact ⟨Nat.max_le.mpr ⟨Nat.le_max_left _ _, Nat.le_trans hdecl (Nat.le_max_right _ _)⟩, Nat.le_max_right _ _⟩
+        rw [ea_w]; exact Nat.le_trans this h1
+      · rw [ea_c]; omega
+    · -- plain file left on disk
+      simp only [hnest, Bool.false_eq_true, if_false, Except.ok.injEq] at hstep
+      have ea_c : acc.count + 1 ≤ a.count := by
+        rw [← hstep]; simp only; unfold countBefore
+        cases hrz : (lim.recursive && zn) <;> simp [f10]
+      have ea_t : a.total = acc.total + decl := by rw [← hstep]
+      have ea_f : a.files = acc.files ++ [(decl, base + d)] := by rw [← hstep]
+      have ea_w : a.maxWrite = Nat.max acc.maxWrite decl := by rw [← hstep]
+      have hInvA : Inv a := by
+        refine ⟨?_, ?_⟩
+        · rw [ea_f, List.length_append, List.length_singleton]; have := hinv.1; omega
+        · rw [ea_f, ea_t, sumSizes_append, hinv.2]; simp [sumSizes]
+      refine post_compose lim base _ acc a r hInvA ⟨[(decl, base + d)], ea_f, ?_, ?_, ?_⟩ ⟨htot', hcnt'⟩ ?_ ?_ (hrest hInvA)
+      · intro f hf; simp at hf; subst hf; exact hdecl
+      · intro hm f hf; simp at hf; subst hf; exact hdep hm
+      · intro f hf; simp at hf; subst hf; simp
+      · rw [ea_w]; exact Nat.max_le.mpr ⟨Nat.le_max_left _ _, Nat.le_trans hdecl (Nat.le_max_right _ _)⟩
+      · omega
+
+/-- the header of every file entry announces no more than its stream holds (no short stream) -/
+def Honest : Arch → Prop
+  | .nil => True
+  | .dirE _ rest => Honest rest
+  | .fileE _ _ decl act _ inner rest => decl ≤ act ∧ Honest inner ∧ Honest rest
+
+theorem fileStep_error (F : LimitFacts) (lim : Limits) (base d : Nat) (zn isZip : Bool)
+    (written cur' : Nat) (nested : Except Err Acc) (acc : Acc) (e : Err)
+    (h : fileStep F lim base d zn isZip written cur' nested acc = .error e) :
+    e = .tooLarge ∨ nested = .error e := by
+  unfold fileStep at h
+  by_cases hn : (lim.recursive && zn && isZip) = true
+  · simp only [hn, if_true] at h
+    by_cases h4 : archiveDepthExceeded F lim cur' = true
+    · simp [h4] at h; exact Or.inl h.symm
+    · by_cases h5 : archiveSizeExceeded F lim written = true
+      · simp [h4, h5] at h; exact Or.inl h.symm
+      · cases nested with
+        | error e2 => simp [h4, h5] at h; exact Or.inr (by rw [h])
+        | ok r => simp [h4, h5] at h
+  · simp [hn] at h
+
+/-- an honest archive is never refused with anything but the 'too large' kind -/
+theorem run_error_kind (F : LimitFacts) (lim : Limits) :
+    ∀ (a : Arch) (cur base : Nat) (acc : Acc) (e : Err), Honest a →
+      run F lim cur base a acc = .error e → e = .tooLarge := by
+  intro a
+  induction a with
+  | nil => intro cur base acc e _ h; simp [run] at h
+  | dirE d rest ih =>
+    intro cur base acc e hh h
+    simp only [run] at h
+    split at h
+    · simp at h; exact h.symm
+    · exact ih cur base _ e hh h
+  | fileE d zn decl act isZip inner rest ihInner ihRest =>
+    intro cur base acc e hh h
+    obtain ⟨hda, hhi, hhr⟩ := hh
+    have tail : ∀ a' : Acc, (if totalExceeded F lim a'.total = true then Except.error Err.tooLarge
+        else if countExceeded F lim a'.count = true then Except.error Err.tooLarge
+        else run F lim cur base rest a') = Except.error e → e = Err.tooLarge := by
+      intro a' ht
+      split at ht
+      · simp at ht; exact ht.symm
+      split at ht
+      · simp at ht; exact ht.symm
+      exact ihRest cur base a' e hhr ht
+    simp only [run] at h
+    generalize (if F.copiesDeclaredSize = true then decl else act) = written at h
+    generalize (if F.nestedDepthPlusOne = true then fileDepthOf lim d cur + 1 else fileDepthOf lim d cur) = cur' at h
+    by_cases h1 : depthExceeded F lim (fileDepthOf lim d cur) = true
+    · simp [h1] at h; exact h.symm
+    by_cases h2 : sizeExceeded F lim decl = true
+    · simp [h1, h2] at h; exact h.symm
+    have h3 : ¬ act < decl := by omega
+    simp only [h1, h2, h3, if_false, Bool.false_eq_true] at h
+    cases hfs : fileStep F lim base d zn isZip written cur'
+        (run F lim cur' (base + d + 1) inner (zeroAcc (acc.maxWrite.max written))) acc with
+    | error e' =>
+      rw [hfs] at h
+      simp only [Except.error.injEq] at h
+      subst h
+      rcases fileStep_error F lim base d zn isZip written cur' _ acc e' hfs with h' | h'
+      · exact h'
+      · exact ihInner _ _ _ _ hhi h'
+    | ok a' =>
+      rw [hfs] at h
+      exact tail a' h
+
 end GoUtils.Unzip
